@@ -1,17 +1,38 @@
 package main
 
 // C06 - arrays and maps are values: no aliasing at any size (spec/Containers.tla).
+//
+// TLC explores Containers.tla (all operation sequences over three bindings, one run per kind of container) and emits every
+// transition with its history and the predicted value of every binding; each is written as a grol session (one REPL input
+// per operation, a probe input after each) and the probes are compared with the prediction and with the previous probe.
+// What the harness adds to a behaviour of the model is its source form only (contForm): how the initial value and the
+// copies are written, and which numbers the keys of a map are (key chains, below).
+//
+// Families added after seeding round 5 (seeds C06-10/11/12, all in the model):
+//   - Retype: an element is replaced by its twin (3 <-> 3.0: prints the same, is another value). Histories with a Retype
+//     print a second probe line, sig(a) sig(b) sig(c), the kinds of the elements as told by a user function that has been
+//     applied to the earlier values of the bindings: the result of a function follows the value of its argument at every
+//     size (a function-call cache keyed by the printed form of small containers answers for the wrong container);
+//   - Frames: y = x through a function that makes an inner call with the same parameter names (`..` or named; recursion or a
+//     closure made by the call) before returning its own parameter: a parameter is a binding of one call's frame only;
+//   - Insert / DelAbsent (maps): index assignment under a new key (front, middle, end: the map grows, across the
+//     threshold too) and del of a key that is absent but next to a present one;
+//   - key chains: the keys are the plain small numbers or integers and floats one apart around +-2^31, 2^32, 2^53 and the
+//     ends of the int64 range, so that "next to" means "told apart only by an exact comparison".
 
 import (
+	"bytes"
 	"encoding/json"
 	"fmt"
+	"math/big"
 	"sort"
+	"strconv"
 	"strings"
 )
 
 func init() {
 	props["C06"] = propDef{check: checkC06, replay: replayC06,
-		rule: "case = one TLC-explored transition of Containers.tla (witness history + operation) instantiated as a grol session for arrays or maps, all bindings printed after every statement and compared with the value-level prediction; distinct by source text; non-trivial when at least two bindings are non-empty"}
+		rule: "case = one TLC-explored transition of Containers.tla (witness history + operation) instantiated as a grol session for arrays or maps (source forms and, for maps, the key chain chosen by a hash of the transition number and the seed), all bindings - and after a Retype the kinds of their elements as seen by a user function - printed after every statement and compared with the value-level prediction; distinct by source text; non-trivial when at least two bindings are non-empty"}
 }
 
 type contOp struct {
@@ -21,6 +42,7 @@ type contOp struct {
 	Y     string `json:"y"`
 	Z     string `json:"z"`
 	Which int    `json:"which"`
+	V     int    `json:"v"` // twin: the new element (-n stands for the float n.0)
 }
 
 type contLine struct {
@@ -28,31 +50,104 @@ type contLine struct {
 	Val map[string][]int `json:"val"`
 }
 
-func contCfg(sizes string, small, maxOps int, cow, coa, emit bool) string {
+func contCfg(kind, sizes string, small, maxOps int, cow, coa, own, emit bool) string {
 	b := func(x bool) string {
 		if x {
 			return "TRUE"
 		}
 		return "FALSE"
 	}
-	return fmt.Sprintf("CONSTANTS\n Vars = {\"a\", \"b\", \"c\"}\n Sizes = %s\n Small = %d\n MaxOps = %d\n CopyOnWrite = %s\n CopyOnAppend = %s\n EmitOn = %s\nINIT Init\nNEXT Next\nVIEW view\nINVARIANT Refines\n",
-		sizes, small, maxOps, b(cow), b(coa), b(emit))
+	return fmt.Sprintf("CONSTANTS\n Vars = {\"a\", \"b\", \"c\"}\n Sizes = %s\n Small = %d\n MaxOps = %d\n CopyOnWrite = %s\n CopyOnAppend = %s\n OwnFrames = %s\n Kind = %q\n EmitOn = %s\nINIT Init\nNEXT Next\nVIEW view\nINVARIANT Refines\n",
+		sizes, small, maxOps, b(cow), b(coa), b(own), kind, b(emit))
 }
 
-// instantiateContainers renders a behaviour as grol inputs plus the expected print after each input.
-// kind "arr": arrays; kind "map": maps whose i-th smallest key carries the i-th element.
-// variant selects the source form of the initial value and of every copy (variant 0 = the plain forms): the value
-// semantics are the same, what differs is where the storage comes from - a literal, a slice of a larger container that
-// stays bound to `par` (printed too: it must never change), the `..` array of a variadic call, a value built by appends or
-// deletions, a value taken out of another container or passed through a function or a loop variable.
-func instantiateContainers(h []contOp, kind string, variant int) (inputs []string, ok bool) {
-	vars := []string{"a", "b", "c"}
-	keys := map[string][]int{"a": nil, "b": nil, "c": nil}
-	probe := "println(a, b, c)"
-	if variant > 0 {
-		probe = "println(a, b, c); println(par, hold)"
+// contForm is how a behaviour of the model is written as grol source: variant selects the source form of the initial value
+// and of every copy (0 = the plain forms), salt the form of the operations that have several, chain the keys of a map.
+type contForm struct {
+	Variant int
+	Salt    uint32
+	Chain   *keyChain
+}
+
+// elemLit is the source form of an element of the model: -n is the float n.0.
+func elemLit(e int) string {
+	if e < 0 {
+		return fmt.Sprintf("%d.0", -e)
 	}
-	inputs = append(inputs, "idf = func(p) {p}; pack = func(..) {..}; par = nil; hold = {}")
+	return strconv.Itoa(e)
+}
+
+func c06HasTwin(h []contOp) bool {
+	for _, op := range h {
+		if op.Op == "twin" {
+			return true
+		}
+	}
+	return false
+}
+
+// instantiateContainers renders a behaviour as grol inputs: the definitions, then for every step of the history the
+// operation and a probe. kind "arr": arrays; kind "map": maps whose i-th smallest key carries the i-th element.
+// The value semantics of all forms are the same, what differs is where the storage comes from - a literal, a slice of a
+// larger container that stays bound to `par` (printed too: it must never change), the `..` array of a variadic call, a
+// value built by appends or deletions, a value taken out of another container or passed through a function, a frame or a
+// loop variable.
+// The probe prints all bindings; when the history retypes an element it also prints what the user function sig says about
+// each binding (the kinds of its elements: print-alike containers are told apart, and sig has seen the earlier values).
+func instantiateContainers(h []contOp, kind string, f contForm) (inputs []string, ok bool) {
+	variant := f.Variant
+	kc := f.Chain
+	keys := map[string][]int{}
+	hasTwin := c06HasTwin(h)
+	probe := "println(a, b, c)"
+	if hasTwin {
+		probe += "; println(sig(a), sig(b), sig(c))"
+	}
+	if variant > 0 {
+		probe += "; println(par, hold)"
+	}
+	helpers := [][2]string{ // name, definition: a session defines the ones it uses
+		{"idf", "idf = func(p) {p}"}, {"pack", "pack = func(..) {..}"},
+		{"recp", "func recp(n, v, p) {if n > 0 {recp(n - 1, v, [v])}; p}"},
+		{"mkp", "mkp = func(p) {[() => p, (p) => len(p)]}"}, {"mkv", "mkv = func(..) {[() => .., (..) => len(..)]}"},
+	}
+	if kind == "arr" { // (an array as last argument of a variadic call is spread: `..` is x itself)
+		helpers = append(helpers, [2]string{"recv", "func recv(n, v, ..) {if n > 0 {recv(n - 1, v, v, v)}; ..}"},
+			[2]string{"sig", `sig = func(x) {r = ":"; for e = x {r = r + (if type(e) == "FLOAT" {"f"} else {"i"})}; r}`},
+			[2]string{"mut", "mut = func(p, v) {p[0] = v; p}"})
+	} else {
+		helpers = append(helpers, [2]string{"recv", "func recv(n, v, ..) {if n > 0 {recv(n - 1, v, {v: v})}; ..[0]}"},
+			[2]string{"sig", `sig = func(x) {r = ":"; for e = x {r = r + (if type(e.value) == "FLOAT" {"f"} else {"i"})}; r}`},
+			[2]string{"mutm", "mutm = func(p, k, v) {p[k] = v; p}"})
+	}
+	defer func() { // the first input: the definitions, then the initial values
+		if !ok {
+			return
+		}
+		all := strings.Join(inputs, "\n")
+		defs := []string{"par = nil; hold = {}"}
+		for _, hp := range helpers {
+			if strings.Contains(all, hp[0]+"(") {
+				defs = append(defs, hp[1])
+			}
+		}
+		inputs[0] = strings.Join(defs, "; ") + "; " + inputs[0]
+	}()
+	// y = x through frames: the function's own parameter (named, or `..`) after an inner call with the same parameter names
+	framesForm := func(y, x string, v, sel int) string {
+		switch sel % 4 {
+		case 0:
+			return fmt.Sprintf("%s = recv(1, %d, %s)", y, v, x)
+		case 1:
+			return fmt.Sprintf("%s = recp(1, %d, %s)", y, v, x)
+		case 2:
+			if kind == "arr" {
+				return fmt.Sprintf("t = mkv(%s); t[1](%d, %d); %s = t[0]()", x, v, v, y)
+			}
+			return fmt.Sprintf("t = mkv(%s); t[1](%d); %s = t[0]()[0]", x, v, y)
+		}
+		return fmt.Sprintf("t = mkp(%s); t[1]([%d]); %s = t[0]()", x, v, y)
+	}
 	appendForm := func(y, x, v string, i int) string { // y = x + v with the left operand written in several ways
 		if variant == 0 {
 			return y + " = " + x + " + " + v
@@ -61,30 +156,39 @@ func instantiateContainers(h []contOp, kind string, variant int) (inputs []strin
 			"%[1]s = (if true {%[2]s} else {0}) + %[3]s", `%[1]s = {"k": %[2]s}.k + %[3]s`, "%[1]s = first([%[2]s]) + %[3]s"}
 		return fmt.Sprintf(forms[(variant/3+i)%len(forms)], y, x, v)
 	}
-	if kind == "arr" {
-		inputs = append(inputs, "mut = func(p, v) {p[0] = v; p}")
-	} else {
-		inputs = append(inputs, "mutm = func(p, k, v) {p[k] = v; p}")
-	}
 	copyForm := func(y, x string, i int) string {
 		if variant == 0 {
 			return y + " = " + x
 		}
 		forms := []string{"%[1]s = %[2]s", "t = [%[2]s]; %[1]s = t[0]", `t = {"k": %[2]s}; %[1]s = t.k`, "%[1]s = idf(%[2]s)", "for q = [%[2]s] {%[1]s = q}",
 			"t = []; t = t + [%[2]s]; %[1]s = t[0]", "%[1]s = (() => %[2]s)()", "t = [0, %[2]s]; t[0] = %[2]s; %[1]s = t[1]", `t = {}; t.k = %[2]s; %[1]s = first(t).value`}
-		return fmt.Sprintf(forms[(variant+i)%len(forms)], y, x)
+		sel := (variant + i) % (len(forms) + 4)
+		if sel >= len(forms) {
+			return framesForm(y, x, 0, sel-len(forms))
+		}
+		return fmt.Sprintf(forms[sel], y, x)
+	}
+	pairs := func(from, to int) []string { // the pairs of the initial value number from..to: key 2j carries j
+		var ps []string
+		for j := from; j <= to; j++ {
+			ps = append(ps, fmt.Sprintf("%s:%d", kc.lit(2*j).Lit, j))
+		}
+		return ps
 	}
 	for i, op := range h {
 		v := 100 + i // Fresh == 100 + Len(hist) before the step
+		k := 0
+		if kind == "map" {
+			if k, ok = mapStep(keys, op, i); !ok {
+				return nil, false
+			}
+		}
+		twinAddr := variant > 0 && (int(f.Salt>>14)+i)&1 == 1 // address an existing key by its twin literal when it has one
 		switch op.Op {
 		case "init":
-			var es, ps []string
-			for k := 1; k <= op.N; k++ {
-				es = append(es, fmt.Sprint(k))
-				ps = append(ps, fmt.Sprintf("%d:%d", k, k))
-				if kind == "map" {
-					keys["a"] = append(keys["a"], k)
-				}
+			var es []string
+			for j := 1; j <= op.N; j++ {
+				es = append(es, fmt.Sprint(j))
 			}
 			n := op.N
 			if kind == "arr" {
@@ -110,25 +214,31 @@ func instantiateContainers(h []contOp, kind string, variant int) (inputs []strin
 				}
 				inputs = append(inputs, src+"; b = []; c = []")
 			} else {
+				ps := pairs(1, n)
+				var above, aboveKeys []string // five more pairs above all keys in use
+				for j := 20; j <= 24; j++ {
+					above = append(above, fmt.Sprintf("%s:%d", kc.lit(2*j).Lit, 71+j))
+					aboveKeys = append(aboveKeys, kc.lit(2*j).Lit)
+				}
 				src := "a = {" + strings.Join(ps, ",") + "}"
 				if variant > 0 {
 					switch variant % 5 {
 					case 1: // built by insertions, largest key first
 						src = "a = {}"
-						for k := n; k >= 1; k-- {
-							src += fmt.Sprintf("; a[%d] = %d", k, k)
+						for j := n; j >= 1; j-- {
+							src += fmt.Sprintf("; a[%s] = %d", kc.lit(2*j).Lit, j)
 						}
 					case 2: // was larger, shrunk by del (the large representation with few pairs)
-						src = fmt.Sprintf("a = {%s}", strings.Join(append(append([]string{}, ps...), "91:91", "92:92", "93:93", "94:94", "95:95"), ","))
-						src += "; for k = 91:96 {del(a[k])}"
+						src = fmt.Sprintf("a = {%s}", strings.Join(append(append([]string{}, ps...), above...), ","))
+						src += "; for k = [" + strings.Join(aboveKeys, ", ") + "] {del(a[k])}"
 					case 3: // a range of a larger map that stays bound
-						src = fmt.Sprintf("par = {%s}; a = par[0:%d]", strings.Join(append(append([]string{}, ps...), "91:91", "92:92", "93:93", "94:94", "95:95"), ","), n)
+						src = fmt.Sprintf("par = {%s}; a = par[0:%d]", strings.Join(append(append([]string{}, ps...), above...), ","), n)
 					case 4: // a merge result
 						h := n / 2
 						src = fmt.Sprintf("a = {%s} + {%s}", strings.Join(ps[:h], ","), strings.Join(ps[h:], ","))
 					default: // rest of a larger map (rest of a one-pair map is nil, not {}: only when something remains)
 						if n > 0 {
-							src = fmt.Sprintf("par = {%s}; a = rest(par)", strings.Join(append([]string{"-5:-5"}, ps...), ","))
+							src = fmt.Sprintf("par = {%s}; a = rest(par)", strings.Join(append([]string{kc.lit(-8).Lit + ":-5"}, ps...), ","))
 						}
 					}
 				}
@@ -136,7 +246,8 @@ func instantiateContainers(h []contOp, kind string, variant int) (inputs []strin
 			}
 		case "copy":
 			inputs = append(inputs, copyForm(op.Y, op.X, i))
-			keys[op.Y] = append([]int{}, keys[op.X]...)
+		case "frames":
+			inputs = append(inputs, framesForm(op.Y, op.X, v, int(f.Salt>>5)+i))
 		case "set":
 			if kind == "arr" {
 				idx := "0"
@@ -145,39 +256,39 @@ func instantiateContainers(h []contOp, kind string, variant int) (inputs []strin
 				}
 				inputs = append(inputs, fmt.Sprintf("%s[%s] = %d", op.X, idx, v))
 			} else {
-				ks := keys[op.X]
-				k := ks[0]
-				if op.Which == 2 {
-					k = ks[len(ks)-1]
-				}
-				inputs = append(inputs, fmt.Sprintf("%s[%d] = %d", op.X, k, v))
+				inputs = append(inputs, fmt.Sprintf("%s[%s] = %d", op.X, kc.addr(k, twinAddr), v))
 			}
+		case "twin":
+			if kind == "arr" {
+				idx := "0"
+				if op.Which == 2 {
+					idx = "-1"
+				}
+				inputs = append(inputs, fmt.Sprintf("%s[%s] = %s", op.X, idx, elemLit(op.V)))
+			} else {
+				inputs = append(inputs, fmt.Sprintf("%s[%s] = %s", op.X, kc.addr(k, twinAddr), elemLit(op.V)))
+			}
+		case "insert":
+			inputs = append(inputs, fmt.Sprintf("%s[%s] = %d", op.X, kc.lit(k).Lit, v))
+		case "delabsent":
+			inputs = append(inputs, fmt.Sprintf("del(%s[%s])", op.X, kc.lit(k).Lit))
 		case "append":
 			if kind == "arr" {
 				inputs = append(inputs, appendForm(op.Y, op.X, fmt.Sprint(v), i))
 			} else {
-				inputs = append(inputs, appendForm(op.Y, op.X, fmt.Sprintf("{%d:%d}", v, v), i))
-				keys[op.Y] = append(append([]int{}, keys[op.X]...), v)
+				inputs = append(inputs, appendForm(op.Y, op.X, fmt.Sprintf("{%s:%d}", kc.lit(k).Lit, v), i))
 			}
 		case "shrink":
 			if kind == "arr" {
 				inputs = append(inputs, fmt.Sprintf("%s = %s[0:-1]", op.X, op.X))
 			} else {
-				ks := keys[op.X]
-				inputs = append(inputs, fmt.Sprintf("del(%s[%d])", op.X, ks[len(ks)-1]))
-				keys[op.X] = append([]int{}, ks[:len(ks)-1]...)
+				inputs = append(inputs, fmt.Sprintf("del(%s[%s])", op.X, kc.addr(k, twinAddr)))
 			}
 		case "overwrite":
 			if kind == "arr" {
 				return nil, false
 			}
-			ks := keys[op.X]
-			k := ks[0]
-			if op.Which == 2 {
-				k = ks[len(ks)-1]
-			}
-			inputs = append(inputs, appendForm(op.Y, op.X, fmt.Sprintf("{%d:%d}", k, v), i))
-			keys[op.Y] = append([]int{}, ks...)
+			inputs = append(inputs, appendForm(op.Y, op.X, fmt.Sprintf("{%s:%d}", kc.addr(k, twinAddr), v), i))
 		case "concat":
 			if kind != "arr" {
 				return nil, false
@@ -187,53 +298,49 @@ func instantiateContainers(h []contOp, kind string, variant int) (inputs []strin
 			if kind == "arr" {
 				inputs = append(inputs, fmt.Sprintf("%s = mut(%s, %d)", op.Y, op.X, v))
 			} else {
-				inputs = append(inputs, fmt.Sprintf("%s = mutm(%s, %d, %d)", op.Y, op.X, keys[op.X][0], v))
-				keys[op.Y] = append([]int{}, keys[op.X]...)
+				inputs = append(inputs, fmt.Sprintf("%s = mutm(%s, %s, %d)", op.Y, op.X, kc.addr(k, twinAddr), v))
 			}
+		default:
+			return nil, false
 		}
 		if variant > 0 && op.Op != "init" {
 			tgt := op.Y
-			if op.Op == "set" || op.Op == "shrink" {
+			if op.Y == "" {
 				tgt = op.X
 			}
 			inputs[len(inputs)-1] += fmt.Sprintf("; hold[%d] = %s", i, tgt) // stored inside another container: must keep this value
 		}
 		inputs = append(inputs, probe)
 	}
-	_ = vars
 	return inputs, true
 }
 
-// expectedPrint is the printed form of the predicted values after the LAST step.
-func expectedPrint(val map[string][]int, h []contOp, kind string) string {
-	var parts []string
-	// recompute keys for maps
+// expectedPrint is what the probe after the LAST step prints for the predicted values: the line of the bindings and, when
+// the history retypes an element, the line of the kinds of their elements.
+func expectedPrint(val map[string][]int, h []contOp, kind string, kc *keyChain) string {
+	var parts, sigs []string
 	keys := map[string][]int{}
-	for i, op := range h {
-		v := 100 + i
-		switch op.Op {
-		case "init":
-			for k := 1; k <= op.N; k++ {
-				keys["a"] = append(keys["a"], k)
-			}
-		case "copy", "call", "overwrite":
-			keys[op.Y] = append([]int{}, keys[op.X]...)
-		case "append":
-			keys[op.Y] = append(append([]int{}, keys[op.X]...), v)
-		case "shrink":
-			if n := len(keys[op.X]); n > 0 {
-				keys[op.X] = append([]int{}, keys[op.X][:n-1]...)
-			}
+	if kind == "map" {
+		for i, op := range h {
+			mapStep(keys, op, i)
 		}
 	}
 	for _, name := range []string{"a", "b", "c"} {
 		vs := val[name]
 		var es []string
+		sig := ":"
 		for i, x := range vs {
-			if kind == "arr" {
-				es = append(es, fmt.Sprint(x))
+			shown := x
+			if x < 0 {
+				shown = -x
+				sig += "f"
 			} else {
-				es = append(es, fmt.Sprintf("%d:%d", keys[name][i], x))
+				sig += "i"
+			}
+			if kind == "arr" {
+				es = append(es, fmt.Sprint(shown))
+			} else {
+				es = append(es, fmt.Sprintf("%s:%d", kc.shown(keys[name][i]), shown))
 			}
 		}
 		if kind == "arr" {
@@ -241,8 +348,69 @@ func expectedPrint(val map[string][]int, h []contOp, kind string) string {
 		} else {
 			parts = append(parts, "{"+strings.Join(es, ",")+"}")
 		}
+		sigs = append(sigs, sig)
 	}
-	return strings.Join(parts, " ") + "\n"
+	out := strings.Join(parts, " ") + "\n"
+	if c06HasTwin(h) {
+		out += strings.Join(sigs, " ") + "\n"
+	}
+	return out
+}
+
+// c06Target is the binding the last operation of a history assigns (every other binding keeps its value).
+func c06Target(op contOp) string {
+	if op.Y != "" {
+		return op.Y
+	}
+	return op.X
+}
+
+// c06Judge compares the probes of a session with the prediction for the last one. Every probe prints the lines of `want`
+// (bindings, kinds) and, when side is set, a line with the container the initial value was cut from and the holder of the
+// values stored at each step. target "" = do not look at the previous probe.
+func c06Judge(obs []inObs, want string, side bool, target string) (bad bool, msg string) {
+	nl := strings.Count(want, "\n")
+	var probes [][]string // the lines of every probe
+	first := ""
+	for k := 1; k < len(obs); k += 2 { // inputs: definitions and initial values, probe, operation, probe, ...
+		lines := strings.Split(strings.TrimSuffix(obs[k].Out, "\n"), "\n")
+		if side && len(lines) == nl+1 {
+			if m := c06SideLine(&first, lines[nl]); m != "" {
+				bad = true
+				msg = fmt.Sprintf("%s (operation %d)", m, (k-1)/2)
+			}
+			lines = lines[:nl]
+		}
+		probes = append(probes, lines)
+	}
+	for _, o := range obs {
+		if o.Err {
+			return true, "an input failed: " + o.Val
+		}
+	}
+	if len(probes) == 0 {
+		return true, "no probe"
+	}
+	got := strings.Join(probes[len(probes)-1], "\n") + "\n"
+	if got != want {
+		return true, fmt.Sprintf("printed %q, values predict %q", got, want)
+	}
+	// (i) non-interference, self-relative: bindings not assigned by the last operation print (and are seen by sig) as before
+	if target != "" && len(probes) >= 2 {
+		prev, cur := probes[len(probes)-2], probes[len(probes)-1]
+		for l := 0; l < nl && l < len(prev) && l < len(cur); l++ {
+			pf, cf := strings.Fields(prev[l]), strings.Fields(cur[l])
+			if len(pf) != 3 || len(cf) != 3 {
+				continue
+			}
+			for i, name := range []string{"a", "b", "c"} {
+				if name != target && pf[i] != cf[i] {
+					return true, fmt.Sprintf("binding %s printed %q before the operation and %q after it", name, pf[i], cf[i])
+				}
+			}
+		}
+	}
+	return bad, msg
 }
 
 func contSignature(h []contOp, kind string) string {
@@ -251,20 +419,7 @@ func contSignature(h []contOp, kind string) string {
 }
 
 func checkC06(c *Ctx) {
-	// 1. design level: each deviation of the pinned tree breaks the refinement
-	for _, dev := range [][2]bool{{false, true}, {true, false}} {
-		r, err := c.TLC(TLCOpt{Spec: "Containers", Cfg: contCfg("{3}", 2, 3, dev[0], dev[1], false), Workers: 4, AllowError: true})
-		if err != nil {
-			c.Infra(err)
-			return
-		}
-		if r.InvViolated != "Refines" {
-			c.Infra(fmt.Errorf("Containers.tla with deviation %v did not violate Refines (vacuous model): %s", dev, r.ErrText))
-			return
-		}
-	}
-	c.Cov("design_counterexamples", "CopyOnWrite=FALSE and CopyOnAppend=FALSE each violate Refines (aliasing through a shared store)")
-
+	// All TLC runs start now (each is its own JVM); the sessions run in this goroutine as the emitted files arrive.
 	type space struct {
 		kind   string
 		sizes  string
@@ -272,32 +427,81 @@ func checkC06(c *Ctx) {
 		maxOps int
 	}
 	spaces := []space{{"arr", "{0, 1, 7, 8, 9, 10}", 8, c.Pick(3, 4)}, {"map", "{0, 1, 3, 4, 5, 6}", 4, c.Pick(3, 4)}}
+	type tlcDone struct {
+		r   *TLCResult
+		err error
+	}
+	emitted := make([]chan tlcDone, len(spaces))
+	for i, sp := range spaces {
+		emitted[i] = make(chan tlcDone, 1)
+		go func(ch chan tlcDone, sp space) {
+			// one worker: records/functions in the history are shared between states and TLC normalises them lazily (not thread safe)
+			r, err := c.TLC(TLCOpt{Spec: "Containers", Cfg: contCfg(sp.kind, sp.sizes, sp.small, sp.maxOps, true, true, true, true), Workers: 1, Heap: "8g"})
+			ch <- tlcDone{r, err}
+		}(emitted[i], sp)
+	}
+	// 1. design level: each deviation of the pinned tree breaks the refinement
+	type deviation struct {
+		kind          string
+		cow, coa, own bool
+	}
+	devs := []deviation{{"arr", false, true, true}, {"map", true, false, true}, {"map", false, true, true}, {"arr", true, true, false}}
+	devDone := make(chan error, len(devs))
+	for _, dev := range devs {
+		go func(dev deviation) {
+			r, err := c.TLC(TLCOpt{Spec: "Containers", Cfg: contCfg(dev.kind, "{3}", 2, 3, dev.cow, dev.coa, dev.own, false), Workers: 2, AllowError: true})
+			if err == nil && r.InvViolated != "Refines" {
+				err = fmt.Errorf("Containers.tla with deviation %+v did not violate Refines (vacuous model): %s", dev, r.ErrText)
+			}
+			devDone <- err
+		}(dev)
+	}
+
+	chains, err := c06Chains()
+	if err != nil {
+		c.Infra(err)
+		return
+	}
 	seen := map[string]bool{}
-	for _, sp := range spaces {
-		r, err := c.TLC(TLCOpt{Spec: "Containers", Cfg: contCfg(sp.sizes, sp.small, sp.maxOps, true, true, true), Workers: 1, Heap: "8g"}) // one worker: records/functions in the history are shared between states and TLC normalises them lazily (not thread safe)
+	usedChains := map[string]int{}
+	for si, sp := range spaces {
+		done := <-emitted[si]
+		r, err := done.r, done.err
 		if err != nil {
 			c.Infra(err)
 			return
 		}
 		n := 0
-		stride := 1
-		if !c.Thorough() {
-			stride = 3
-		}
+		// quick: one transition in four. thorough: every history of up to three operations, one in three of the longest ones
+		// (11.7M transitions with four operations).
+		stride := c.Pick(4, 3)
+		opsSeen := map[string]int{}
 		err = ReadLines(r.Emitted, func(line []byte) error {
+			n++
+			salt := uint32(n)*2654435761 + uint32(c.Seed)*40503 // hashed: neither the sample nor the forms may alias with the order of enumeration
+			sampled := !c.Thorough() || bytes.Count(line, []byte(`"op"`)) > 4
+			if sampled && (uint64(salt^salt>>15)&0xffff)*uint64(stride)>>16 != 0 {
+				return nil
+			}
 			var g contLine
 			if err := json.Unmarshal(line, &g); err != nil {
 				return err
 			}
-			n++
-			if (n+int(c.Seed))%stride != 0 {
-				return nil
+			if op := g.H[len(g.H)-1].Op; !c.Thorough() && (op == "concat" || op == "overwrite") && salt>>31 == 1 {
+				return nil // (27 and 18 instances per state: the sample takes every other one of them)
 			}
-			variant := 0
-			if n%2 == 1 { // every other behaviour with other source forms of its initial value and copies
-				variant = 1 + int((uint32(n)*2654435761+uint32(c.Seed)*40503)>>9)%30 // hashed: the stride must not alias with the variants
+			form := contForm{Salt: salt, Chain: chains[0]}
+			if n%2 == 1 { // every other behaviour with other source forms of its initial value and copies, and other keys
+				form.Variant = 1 + int(salt>>9)%30
+				if sp.kind == "map" {
+					kc := *chains[int(salt>>17)%len(chains)]
+					if kc.Name != "plain" {
+						kc.B = int(salt>>23)%15 - 1
+					}
+					form.Chain = &kc
+				}
 			}
-			inputs, ok := instantiateContainers(g.H, sp.kind, variant)
+			inputs, ok := instantiateContainers(g.H, sp.kind, form)
 			if !ok {
 				return nil
 			}
@@ -314,49 +518,18 @@ func checkC06(c *Ctx) {
 				}
 			}
 			c.Case(key, nonEmpty >= 2)
+			last := g.H[len(g.H)-1]
+			opsSeen[last.Op]++
+			if sp.kind == "map" {
+				usedChains[form.Chain.Name]++
+			}
 			if n%20000 == 1 {
 				c.Sample(map[string]any{"kind": sp.kind, "inputs": inputs, "predicted": g.Val})
 			}
-			want := expectedPrint(g.Val, g.H, sp.kind)
-			got := obs[len(obs)-1]
-			parChanged := ""
-			if variant > 0 { // second line of every probe: the container the initial value was cut from; it never changes
-				first := ""
-				for k := 3; k < len(obs); k += 2 {
-					abc, parLine, _ := strings.Cut(obs[k].Out, "\n")
-					obs[k].Out = abc + "\n"
-					if msg := c06SideLine(&first, strings.TrimSuffix(parLine, "\n")); msg != "" {
-						parChanged = fmt.Sprintf("%s (step %d)", msg, (k-1)/2)
-					}
-				}
-				got = obs[len(obs)-1]
-			}
-			bad := got.Err || got.Out != want || parChanged != ""
-			// (i) non-interference, self-relative: bindings not assigned by the last operation print as before
-			if !bad && len(obs) >= 3 {
-				prev := strings.Fields(strings.TrimSpace(obs[len(obs)-3].Out))
-				cur := strings.Fields(strings.TrimSpace(got.Out))
-				last := g.H[len(g.H)-1]
-				target := last.Y
-				if last.Op == "set" || last.Op == "shrink" {
-					target = last.X
-				}
-				if len(prev) == 3 && len(cur) == 3 {
-					for i, name := range []string{"a", "b", "c"} {
-						if name != target && prev[i] != cur[i] {
-							bad = true
-						}
-					}
-				}
-			}
-			for _, o := range obs {
-				if o.Err {
-					bad = true
-				}
-			}
-			if bad {
-				c.Fail(contSignature(g.H, sp.kind), fmt.Sprintf("after %v: printed %q (err=%v %s), values predict %q %s", g.H[len(g.H)-1], got.Out, got.Err, got.Val, want, parChanged),
-					map[string]any{"check": "gen", "kind": sp.kind, "inputs": inputs, "want": want, "variant": variant})
+			want := expectedPrint(g.Val, g.H, sp.kind, form.Chain)
+			if bad, msg := c06Judge(obs, want, form.Variant > 0, c06Target(last)); bad {
+				c.Fail(contSignature(g.H, sp.kind), fmt.Sprintf("after %+v: %s", last, msg),
+					map[string]any{"check": "gen", "kind": sp.kind, "inputs": inputs, "want": want, "variant": form.Variant, "target": c06Target(last)})
 			} else {
 				c.AddTraces(1)
 			}
@@ -370,7 +543,38 @@ func checkC06(c *Ctx) {
 			c.Infra(fmt.Errorf("Containers GEN emitted nothing"))
 			return
 		}
-		c.Note("Containers %s: %d states, %d transitions emitted", sp.kind, r.Distinct, n)
+		c.Note("Containers %s: %d states, %d transitions emitted, sessions by last operation %v", sp.kind, r.Distinct, n, opsSeen)
+	}
+	c.Cov("map_key_chains", usedChains)
+	for range devs {
+		if err := <-devDone; err != nil {
+			c.Infra(err)
+			return
+		}
+	}
+	c.Cov("design_counterexamples", "CopyOnWrite=FALSE (arrays, maps), CopyOnAppend=FALSE and OwnFrames=FALSE each violate Refines (aliasing through a shared store / a shared parameter binding)")
+	// binding self-test: a session whose recorded probe is perturbed in one binding / one kind / the side line is rejected
+	{
+		h := []contOp{{Op: "init", N: 2}, {Op: "copy", X: "a", Y: "b"}, {Op: "twin", X: "b", Which: 1, V: -1}}
+		val := map[string][]int{"a": {1, 2}, "b": {-1, 2}, "c": {}}
+		inputs, _ := instantiateContainers(h, "arr", contForm{Variant: 1, Chain: chains[0]})
+		want := expectedPrint(val, h, "arr", chains[0])
+		obs, _ := runHistory(inputs, RunOpt{})
+		if bad, msg := c06Judge(obs, want, true, "b"); bad {
+			c.Fail("container-aliasing-arr-after-twin", "self-test session: "+msg, map[string]any{"check": "gen", "kind": "arr", "inputs": inputs, "want": want, "variant": 1, "target": "b"})
+		}
+		for _, perturb := range []func(o []inObs){
+			func(o []inObs) { o[len(o)-1].Out = strings.Replace(o[len(o)-1].Out, ":fi", ":ii", 1) },
+			func(o []inObs) { o[len(o)-1].Out = strings.Replace(o[len(o)-1].Out, "[1,2] [1,2]", "[9,2] [1,2]", 1) },
+			func(o []inObs) { o[len(o)-1].Out = strings.Replace(o[len(o)-1].Out, "nil {", "[0] {", 1) },
+		} {
+			o2 := append([]inObs{}, obs...)
+			perturb(o2)
+			if bad, _ := c06Judge(o2, want, true, "b"); !bad {
+				c.Infra(fmt.Errorf("C06: a perturbed probe was accepted (vacuous binding): %q", o2[len(o2)-1].Out))
+				return
+			}
+		}
 	}
 	// 2. pinned reproducers of the repaired defects (regression cases) and nesting / loops / element ++
 	pinned := []struct {
@@ -432,19 +636,219 @@ func replayC06(rp map[string]any) (bool, string) {
 	_ = json.Unmarshal(b, &inputs)
 	want, _ := rp["want"].(string)
 	obs, _ := runHistory(inputs, RunOpt{})
-	if v, _ := rp["variant"].(float64); v > 0 {
-		first := ""
-		for k := 3; k < len(obs); k += 2 {
-			abc, parLine, _ := strings.Cut(obs[k].Out, "\n")
-			obs[k].Out = abc + "\n"
-			if msg := c06SideLine(&first, strings.TrimSuffix(parLine, "\n")); msg != "" {
-				return false, msg
+	if chk, _ := rp["check"].(string); chk == "pinned" {
+		if obs[0].Err || obs[0].Out != want {
+			return false, fmt.Sprintf("printed %q (err=%v), want %q", obs[0].Out, obs[0].Err, want)
+		}
+		return true, ""
+	}
+	v, _ := rp["variant"].(float64)
+	target, _ := rp["target"].(string)
+	if bad, msg := c06Judge(obs, want, v > 0, target); bad {
+		return false, msg
+	}
+	return true, ""
+}
+
+// ---- map keys -------------------------------------------------------------------------------------------------------
+//
+// The model orders the elements of a map by key and never says which keys they are: the harness takes them from a key
+// chain, an ascending list of number literals addressed by an index p. The keys of the initial value are the even indices
+// 2, 4, .. 2n, a merged-in new key of step i is 14 + 2i, and Insert / DelAbsent address the free neighbour of a key (p - 1,
+// p + 1). Chain 0 is the plain one (p even: the integer p/2, p odd: the half between its neighbours). The others surround
+// +-2^31, +-2^32, +-2^53 (neighbours differ by 1 and alternate between integer and float, or are all integers beyond the
+// boundary, where a float cannot tell them apart) and +-2^63 (the ends of the integer range and the floats next to them);
+// where the boundary lies among the indices is part of the case. Keys that are different numbers stay different elements
+// and keep their order, at every size; a key that has a twin (the same number as the other kind) may be addressed by it.
+
+type keyLit struct{ Lit, Twin string }
+
+type keyChain struct {
+	Name    string
+	at      func(d int) keyLit
+	B       int               // the index of entry d = 0
+	printed map[string]string // literal -> what println shows for it (self-relative: number formatting is not C06's)
+}
+
+func (kc *keyChain) lit(p int) keyLit { return kc.at(p - kc.B) }
+
+// addr is the literal used to address an existing key: the twin when asked for and there is one.
+func (kc *keyChain) addr(p int, twin bool) string {
+	l := kc.lit(p)
+	if twin && l.Twin != "" {
+		return l.Twin
+	}
+	return l.Lit
+}
+
+func (kc *keyChain) shown(p int) string { return kc.printed[kc.lit(p).Lit] }
+
+const c06ChainSpan = 70 // entries -span..span around d = 0 are ever used (indices -8..48, boundary index -1..13)
+
+func plainChainAt(d int) keyLit {
+	if d%2 == 0 {
+		return keyLit{strconv.Itoa(d / 2), strconv.Itoa(d/2) + ".0"}
+	}
+	return keyLit{strconv.FormatFloat(float64(d)/2, 'f', 1, 64), ""}
+}
+
+// pow2ChainAt: entry d is sign*2^k + d. alt: a float when d is even (always exact), an integer when d is odd. Otherwise
+// ("ints"): beyond the boundary all integers (consecutive integers, the odd ones are no float64), floats and integers
+// alternating on the near side.
+func pow2ChainAt(k uint, sign int, alt bool) func(d int) keyLit {
+	bnd := new(big.Int).Lsh(big.NewInt(1), k)
+	two53 := new(big.Int).Lsh(big.NewInt(1), 53)
+	return func(d int) keyLit {
+		v := new(big.Int).Mul(bnd, big.NewInt(int64(sign)))
+		v.Add(v, big.NewInt(int64(d)))
+		abs := new(big.Int).Abs(v)
+		outside := abs.Cmp(bnd) > 0
+		isFloat := d&1 == 0
+		if !alt {
+			isFloat = !outside && d&1 == 1
+		}
+		exact := abs.Cmp(two53) <= 0 || abs.Bit(0) == 0 // (|v| < 2^54 here)
+		if isFloat {
+			return keyLit{v.String() + ".0", v.String()}
+		}
+		if exact {
+			return keyLit{v.String(), v.String() + ".0"}
+		}
+		return keyLit{v.String(), ""}
+	}
+}
+
+// endChainAt: the top of the integer range. d = 0, -1, -2: 2^63-1, 2^63-2, 2^63-3; below them, around every float 2^63 - 1024t
+// the integer on each side of it; d > 0: the floats 2^63, 2^63 + 2048, ... sign -1: the mirror image.
+func endChainAt(sign int) func(d int) keyLit {
+	two63 := new(big.Int).Lsh(big.NewInt(1), 63)
+	pos := func(d int) keyLit {
+		switch {
+		case d > 0:
+			v := new(big.Int).Add(two63, big.NewInt(int64(2048*(d-1))))
+			return keyLit{v.String() + ".0", ""}
+		case d >= -2:
+			return keyLit{new(big.Int).Add(two63, big.NewInt(int64(d-1))).String(), ""}
+		}
+		t, r := (-d-3)/3+1, (-d-3)%3 // r = 0: just above the float, 1: the float, 2: just below
+		v := new(big.Int).Sub(two63, big.NewInt(int64(1024*t)))
+		switch r {
+		case 0:
+			return keyLit{v.Add(v, big.NewInt(1)).String(), ""}
+		case 1:
+			return keyLit{v.String() + ".0", v.String()}
+		}
+		return keyLit{v.Sub(v, big.NewInt(1)).String(), ""}
+	}
+	if sign > 0 {
+		return pos
+	}
+	return func(d int) keyLit {
+		l := pos(-d)
+		l.Lit = "-" + l.Lit
+		if l.Twin != "" {
+			l.Twin = "-" + l.Twin
+		}
+		return l
+	}
+}
+
+// c06Chains builds the chains and asks the interpreter how it prints each literal (one println per literal).
+func c06Chains() ([]*keyChain, error) {
+	chains := []*keyChain{{Name: "plain", at: plainChainAt}}
+	for _, k := range []uint{31, 32, 53} {
+		for _, sign := range []int{1, -1} {
+			for _, alt := range []bool{true, false} {
+				chains = append(chains, &keyChain{Name: fmt.Sprintf("%d*2^%d alt=%v", sign, k, alt), at: pow2ChainAt(k, sign, alt)})
 			}
 		}
 	}
-	got := obs[len(obs)-1]
-	if got.Err || got.Out != want {
-		return false, fmt.Sprintf("printed %q (err=%v), values predict %q", got.Out, got.Err, want)
+	chains = append(chains, &keyChain{Name: "2^63", at: endChainAt(1)}, &keyChain{Name: "-2^63", at: endChainAt(-1)})
+	for _, kc := range chains {
+		var lits, inputs []string
+		for d := -c06ChainSpan; d <= c06ChainSpan; d++ {
+			l := kc.at(d)
+			lits = append(lits, l.Lit)
+			inputs = append(inputs, "println("+l.Lit+")")
+		}
+		obs, _ := runHistory(inputs, RunOpt{})
+		kc.printed = map[string]string{}
+		for i, o := range obs {
+			p := strings.TrimSuffix(o.Out, "\n")
+			if o.Err || p == "" || strings.Contains(p, "\n") {
+				return nil, fmt.Errorf("key chain %s: println(%s) gave %q (err=%v %s)", kc.Name, lits[i], o.Out, o.Err, o.Val)
+			}
+			kc.printed[lits[i]] = p
+		}
 	}
-	return true, ""
+	return chains, nil
+}
+
+// mapStep applies operation number i of a history to the key lists (chain indices, ascending) and returns the index the
+// operation addresses; ok = false when the history has no map form (no free neighbour where the model wants a new key).
+func mapStep(keys map[string][]int, op contOp, i int) (k int, ok bool) {
+	clone := func(x string) []int { return append([]int{}, keys[x]...) }
+	has := func(x string, p int) bool {
+		for _, q := range keys[x] {
+			if q == p {
+				return true
+			}
+		}
+		return false
+	}
+	end := func(x string, which int) int {
+		ks := keys[x]
+		if len(ks) == 0 {
+			return 2
+		}
+		if which == 1 {
+			return ks[0]
+		}
+		return ks[len(ks)-1]
+	}
+	switch op.Op {
+	case "init":
+		keys["a"], keys["b"], keys["c"] = nil, nil, nil
+		for j := 1; j <= op.N; j++ {
+			keys["a"] = append(keys["a"], 2*j)
+		}
+	case "copy", "frames":
+		keys[op.Y] = clone(op.X)
+	case "set", "twin":
+		k = end(op.X, op.Which)
+	case "call":
+		k = end(op.X, 1)
+		keys[op.Y] = clone(op.X)
+	case "overwrite":
+		k = end(op.X, op.Which)
+		keys[op.Y] = clone(op.X)
+	case "append":
+		k = 14 + 2*i
+		keys[op.Y] = append(clone(op.X), k)
+	case "shrink":
+		k = end(op.X, 2)
+		if n := len(keys[op.X]); n > 0 {
+			keys[op.X] = clone(op.X)[:n-1]
+		}
+	case "insert", "delabsent":
+		switch op.Which {
+		case 1:
+			k = end(op.X, 1) - 1
+		case 2:
+			k = end(op.X, 2) - 1
+		default:
+			k = end(op.X, 2) + 1
+		}
+		if has(op.X, k) {
+			return 0, false
+		}
+		if op.Op == "insert" {
+			ks := append(clone(op.X), k)
+			sort.Ints(ks)
+			keys[op.X] = ks
+		}
+	default:
+		return 0, false
+	}
+	return k, true
 }
